@@ -57,7 +57,7 @@ func (s *service) Create(ctx context.Context, record kvs.Record) (string, error)
 	if ctx.Err() != nil {
 		return "", ctx.Err()
 	}
-	if r, ok := s.recs[record.Key]; ok {
+	if r, ok := s.getLive(record.Key, time.Now()); ok {
 		return r.Version, errors.ErrExist
 	}
 	record.Version = ulidutils.NewID()
@@ -151,7 +151,7 @@ func (s *service) Delete(ctx context.Context, key string) error {
 	s.lock.Lock()
 	defer s.lock.Unlock()
 
-	if _, ok := s.recs[key]; !ok {
+	if _, ok := s.getLive(key, time.Now()); !ok {
 		return errors.ErrNotExist
 	}
 	delete(s.recs, key)
@@ -162,7 +162,7 @@ func (s *service) Delete(ctx context.Context, key string) error {
 func (s *service) WaitForVersionChange(ctx context.Context, key, ver string) error {
 	for {
 		s.lock.Lock()
-		r, ok := s.recs[key]
+		r, ok := s.getLive(key, time.Now())
 		if !ok {
 			s.lock.Unlock()
 			return errors.ErrNotExist
@@ -179,24 +179,63 @@ func (s *service) WaitForVersionChange(ctx context.Context, key, ver string) err
 		ws.waiters++
 		s.lock.Unlock()
 
+		// the record expiration is a change as well: wake up right after it
+		var expCh <-chan time.Time
+		var expTmr *time.Timer
+		if r.ExpiresAt != nil {
+			expTmr = time.NewTimer(time.Until(*r.ExpiresAt) + time.Millisecond)
+			expCh = expTmr.C
+		}
+
 		select {
 		case <-ctx.Done():
+			if expTmr != nil {
+				expTmr.Stop()
+			}
 			s.lock.Lock()
 			defer s.lock.Unlock()
-			ws1, ok := s.verChange[key]
-			if !ok || ws.done != ws1.done {
-				return ctx.Err()
-			}
-			ws.waiters--
-			if ws.waiters == 0 {
-				close(ws.done)
-				delete(s.verChange, key)
-			}
+			s.leaveWaiters(key, ws)
 			return ctx.Err()
 		case <-ws.done:
 			// need to check the version, go around
+			if expTmr != nil {
+				expTmr.Stop()
+			}
+		case <-expCh:
+			// the record must be expired now, go around
+			s.lock.Lock()
+			s.leaveWaiters(key, ws)
+			s.lock.Unlock()
 		}
 	}
+}
+
+// leaveWaiters unregisters one waiter from ws if ws is still the current waiters record for the key
+func (s *service) leaveWaiters(key string, ws *waiter) {
+	ws1, ok := s.verChange[key]
+	if !ok || ws.done != ws1.done {
+		return
+	}
+	ws.waiters--
+	if ws.waiters == 0 {
+		close(ws.done)
+		delete(s.verChange, key)
+	}
+}
+
+// getLive returns the record by the key if it exists and is not expired at the moment now. The
+// expired record is removed (the waiters are notified), so it is not distinguishable from a deleted one.
+func (s *service) getLive(key string, now time.Time) (kvs.Record, bool) {
+	r, ok := s.recs[key]
+	if !ok {
+		return kvs.Record{}, false
+	}
+	if r.ExpiresAt != nil && r.ExpiresAt.Before(now) {
+		delete(s.recs, key)
+		s.notifyWaiters(key)
+		return kvs.Record{}, false
+	}
+	return r, true
 }
 
 func (s *service) ListKeys(ctx context.Context, pattern string) (iterable.Iterator[string], error) {
@@ -208,7 +247,12 @@ func (s *service) ListKeys(ctx context.Context, pattern string) (iterable.Iterat
 		return nil, fmt.Errorf("could not compile the patter %q: %w", pattern, err)
 	}
 	res := []string{}
-	for k := range s.recs {
+	now := time.Now()
+	for k, r := range s.recs {
+		if r.ExpiresAt != nil && r.ExpiresAt.Before(now) {
+			// expired, it will be removed on the first direct access
+			continue
+		}
 		if g.Match(k) {
 			res = append(res, k)
 		}
